@@ -346,6 +346,7 @@ static std::string threshold_digits() {
   return r;  // 309 digits
 }
 
+#ifndef VF_FUZZ_TARGET
 int main(int argc, char** argv) {
   std::vector<vf::Stream> S;
 
@@ -602,3 +603,4 @@ int main(int argc, char** argv) {
   int rc = vf::run(argc, argv, S);
   return rc;
 }
+#endif  // VF_FUZZ_TARGET
